@@ -156,7 +156,7 @@ def run(chk):
     for it2 in range(4 if thorough else 2):
         h0, h1 = [rng.uniform(-1, 1) * SZ + rng.uniform(-1, 1) * SX + rng.uniform(-1, 1) * oqupy.operators.sigma("y") for _ in range(2)]
         a, b = rng.choice([SX, SZ, oqupy.operators.sigma("y")]), rng.choice([SX, SZ, oqupy.operators.sigma("-")])
-        l0, g0 = oqupy.operators.sigma("-"), rng.uniform(0.1, 0.5)
+        l0, g0 = rng.choice([oqupy.operators.sigma("-"), 1j * oqupy.operators.sigma("-") + 0.2 * SZ]), rng.uniform(0.1, 0.5)
         chain = oqupy.SystemChain([2, 2])
         chain.add_site_hamiltonian(0, h0)
         chain.add_site_hamiltonian(1, h1)
@@ -196,6 +196,10 @@ def run(chk):
         dt, N = 0.1, 3
         hs = [rng.uniform(-1, 1) * SZ + rng.uniform(-1, 1) * SX for _ in range(L)]
         diss = [rng.random() < 0.4 for _ in range(L)]
+        # Lindblad operators with complex entries as well (i sigma_-, a phase times sigma_+, sigma_y + a real part)
+        lops = [rng.choice([SM, 1j * SM, np.exp(0.7j) * SM.T, oqupy.operators.sigma("y") + 0.3 * SM]) for _ in range(L)]
+        if it == 1:
+            diss[-1], lops[-1] = True, 1j * SM + 0.2 * SZ
         rhos = [oqupy.operators.spin_dm(rng.choice(["z+", "x+", "y-", "z-"])) for _ in range(L)]
         with_pt = [rng.random() < 0.5 for _ in range(L)]
         par = oqupy.TempoParameters(dt=dt, epsrel=eps, dkmax=2)
@@ -217,7 +221,7 @@ def run(chk):
         for i in range(L):
             chain.add_site_hamiltonian(i, hs[i])
             if diss[i]:
-                chain.add_site_dissipation(i, SM, 0.3)
+                chain.add_site_dissipation(i, lops[i], 0.3)
         info = {"kind": "uncoupled", "L": L, "order": order, "pts": with_pt, "dissipation": diss}
         try:
             p = oqupy.PtTebd(oqupy.AugmentedMPS(rhos), chain, pts, oqupy.PtTebdParameters(dt=dt, order=order, epsrel=eps),
@@ -231,7 +235,7 @@ def run(chk):
         chk.case(info, ("uncoupled", L, order, tuple(with_pt), tuple(diss)))
         worst = 0.0
         for i in range(L):
-            sysm = oqupy.System(hs[i], gammas=[0.3] if diss[i] else [], lindblad_operators=[SM] if diss[i] else [])
+            sysm = oqupy.System(hs[i], gammas=[0.3] if diss[i] else [], lindblad_operators=[lops[i]] if diss[i] else [])
             ref = quiet(oqupy.compute_dynamics, sysm, initial_state=rhos[i], dt=dt, num_steps=N, process_tensor=pts[i], progress_type="silent")
             worst = max(worst, np.abs(np.array(res["dynamics"][i].states) - np.array(ref.states)).max())
         if worst > 1e3 * eps or np.abs(np.array(res["norm"]) - 1).max() > 1e3 * eps:
@@ -270,8 +274,9 @@ def run(chk):
         jumps = []
         if L2 == 2 and (rng.random() < 0.6 or it == 1):
             g1, g2 = rng.choice([0.3, 0.7, 2.5]), rng.choice([0.4, 1.0, 1.8])
-            chain.add_site_dissipation(0, SM, gamma=g1)
-            jumps.append((g1, emb(SM, 0)))
+            l1_ = rng.choice([SM, 1j * SM + 0.2 * SZ, oqupy.operators.sigma("y") + 0.3 * SM])
+            chain.add_site_dissipation(0, l1_, gamma=g1)
+            jumps.append((g1, emb(l1_, 0)))
             A_, B_ = rng.choice([SM, SZ, SX]), rng.choice([SM, SM.T, SZ])
             chain.add_nn_dissipation(0, A_, B_, gamma=g2)
             jumps.append((g2, np.kron(A_, B_)))
